@@ -22,7 +22,7 @@ FANOUT_CHUNK = 2
 RULE = (
     "fault kinds {NaN/inf in ra|dec|weight|redshift; columns of unequal length (HDF5: which column x shorter/longer by 1..3 x chunk sizes that do / do not divide the lengths); missing column; patch id "
     "-1|32768|65538|-65535; a centre without object; no patch method; target exists as {catalog, directory "
-    "with foreign content, empty directory, regular file} x overwrite {F,T}; parent directory missing; exception "
+    "with foreign content, empty directory, regular file, directory holding only foreign files named patch_*, the same plus a patch_0 directory} x overwrite {F,T}; parent directory missing; exception "
     "injected into the k-th worker task / the k-th writer call; overwrite + late fault} x chunk position "
     "{first, middle, last} x source {data frame, HDF5} x workers {1,2,3}; for W>1 every schedule of the "
     "virtual pool/queue/writer-process pipeline (partial-order reduced, see DESIGN.md E3b). Oracle: the call "
@@ -72,7 +72,7 @@ def cases(tier, seed):
     for k in range(3):
         out.append(dict(fault="empty-centre", k=k, source="frame"))
     out.append(dict(fault="no-method", source="frame"))
-    for pre, ow in itertools.product(("catalog", "foreign-dir", "empty-dir", "file"), (False, True)):
+    for pre, ow in itertools.product(("catalog", "foreign-dir", "empty-dir", "file", "patch-named-files", "patch-named-dir+file"), (False, True)):
         out.append(dict(fault="exists", pre=pre, overwrite=ow, source="frame"))
     out.append(dict(fault="parent-missing", source="frame"))
     for where, k in itertools.product(("worker", "writer"), (0, 1, 2)):
@@ -179,6 +179,16 @@ class Scenario:
             os.makedirs(os.path.join(target, "precious"))
             with open(os.path.join(target, "precious", "thesis.tex"), "w") as fh:
                 fh.write("do not delete")
+        elif pre in ("patch-named-files", "patch-named-dir+file"):
+            # not a catalog cache although every entry carries the cache's name prefix
+            os.makedirs(target)
+            for name in ("patch_centers.txt", "patch_notes.md"):
+                with open(os.path.join(target, name), "w") as fh:
+                    fh.write("my own notes")
+            if pre == "patch-named-dir+file":
+                os.makedirs(os.path.join(target, "patch_0"))
+                with open(os.path.join(target, "patch_0", "results.txt"), "w") as fh:
+                    fh.write("precious")
         elif pre == "empty-dir":
             os.makedirs(target)
         elif pre == "file":
